@@ -23,6 +23,7 @@ type c13Case struct {
 	RelNs     int64    `json:"release_ns"`
 	Outcome   int      `json:"outcome"`
 	Free      bool     `json:"free"` // capacity is free from the start (nobody holds the token)
+	Rival     bool     `json:"rival,omitempty"` // a second caller arrives at the same instant (no cancellation in these cases)
 }
 
 func genC13(t *rapid.T) c13Case {
@@ -77,6 +78,9 @@ func genC13(t *rapid.T) c13Case {
 	}
 	c.Outcome = rapid.IntRange(0, 2).Draw(t, "outcome")
 	c.Free = rapid.IntRange(0, 5).Draw(t, "free") == 0
+	if !c.HasCancel && !c.Free && c.Stack.Kind != "blocking" && bound > 0 && rapid.Bool().Draw(t, "rival") {
+		c.Rival = true
+	}
 	return c
 }
 
@@ -104,6 +108,10 @@ func runC13InBubble(c c13Case) (out kit.Outcome) {
 		holder = &vtCaller{L: l, OK: true, Done: true}
 	}
 	caller := w.newCaller("a", 0, 0)
+	var rival *vtCaller
+	if c.Rival {
+		rival = w.newCaller("a", 0, 0)
+	}
 
 	type ev struct {
 		at   time.Duration
@@ -139,6 +147,9 @@ func runC13InBubble(c c13Case) (out kit.Outcome) {
 			synctest.Wait()
 			busyAtArrival = st.busy()
 			w.start(caller)
+			if rival != nil {
+				w.start(rival)
+			}
 		}
 		synctest.Wait()
 	}
@@ -203,6 +214,8 @@ func runC13InBubble(c c13Case) (out kit.Outcome) {
 	}
 	busyAfter := st.busy()
 	switch {
+	case rival != nil:
+		// two callers: judged by the rival oracle below
 	case (kind == "blocking" || kind == "deadline") && preCancelled:
 		// refused at once, no capacity consumed
 		if !snap.Done || snap.OK || snap.RetAt != A {
@@ -249,6 +262,39 @@ func runC13InBubble(c c13Case) (out kit.Outcome) {
 			mk("early", "refused before its bound while no capacity was offered")
 		} else if snap.RetAt > bound {
 			mk("late", "refused later than its bound")
+		}
+	}
+	if rival != nil && viol == nil {
+		// two callers, same arrival, same bound, at most one release: each returns either granted at the
+		// release instant or refused exactly at the bound, and only as many are granted as tokens were offered
+		viol = nil
+		rs := w.snapshot()[1]
+		granted := 0
+		for _, s := range []vtCaller{snap, rs} {
+			switch {
+			case !s.Done:
+				mk("rival-not-bounded", "caller %d of two never returned", s.ID)
+			case s.OK && (R == never || (s.RetAt != R && !(R <= A && s.RetAt == A))):
+				mk("rival-grant-instant", "caller %d of two was granted at +%v, capacity was offered %s", s.ID, s.RetAt, instStr(R, never))
+			case !s.OK && s.RetAt != bound:
+				mk("rival-bound", "caller %d of two was refused at +%v, its bound is %s", s.ID, s.RetAt, instStr(bound, never))
+			}
+			if s.OK {
+				granted++
+			}
+		}
+		offered := 0
+		if R != never && R <= bound {
+			offered = 1
+		}
+		if viol == nil && R < bound && granted != offered {
+			mk("rival-count", "%d token(s) offered before the bound but %d of the two callers were granted", offered, granted)
+		}
+		if viol == nil && granted > offered {
+			mk("rival-count", "%d of two callers granted with %d token(s) offered", granted, offered)
+		}
+		if rs.Done && rs.OK {
+			w.release(w.callers[1], 1)
 		}
 	}
 	// unwind
